@@ -69,7 +69,7 @@ fn parse_optb(t: &Tree) -> Option<Option<Vec<u8>>> {
     }
 }
 
-fn creason_tree(r: DisconnectReason) -> Tree {
+pub fn creason_tree(r: DisconnectReason) -> Tree {
     n(match r {
         DisconnectReason::ConnectTokenExpired => 0u8,
         DisconnectReason::ConnectionTimedOut => 1,
